@@ -9,7 +9,7 @@ for f in d["findings"]:
     if f["status"] == "fixed":
         fx.append("| %s | %s | %s |" % (f["property"], f.get("commit", "?"), f["what"].replace("|", "/").replace("\n", " ")[:300]))
 sd = ["| seed | needs | result |", "|------|-------|--------|"]
-for p in sorted(glob.glob(os.path.join(V, "seeded", "*"))):
+for p in sorted(glob.glob(os.path.join(V, "seeded", "C*-*"))):
     m = json.load(open(os.path.join(p, "meta.json")))
     sd.append("| %s | %s | %s |" % (os.path.basename(p), m.get("needs_to_manifest", "").replace("|", "/").replace("\n", " "), m.get("result", "").replace("|", "/").replace("\n", " ")))
 s = open(os.path.join(V, "DESIGN.md")).read()
